@@ -65,6 +65,7 @@ type Exec struct {
 	Quantum   time.Duration
 	ClockOn   func() bool // when non-nil and true, "advance the clock by one quantum" is an enabled entry
 	ClockFree bool        // clock entry costs no deviation
+	OnClock   func()      // called by the controller each time it advances the clock by choice
 	MaxSteps  int
 	MaxIdle   int // max consecutive idle clock advances when nothing is enabled
 	// DelayBounded switches the cost model from preemption bounding (switching away from a runnable
@@ -322,6 +323,9 @@ func (e *Exec) Run() string {
 		if pick.w == nil {
 			e.Trace = append(e.Trace, "clock")
 			e.running = ""
+			if e.OnClock != nil {
+				e.OnClock()
+			}
 			time.Sleep(e.Quantum)
 			continue
 		}
@@ -356,6 +360,17 @@ func (e *Exec) describe(en []entry) string {
 		}
 	}
 	return strings.Join(s, " ")
+}
+
+// ParkedInCond reports whether a thread of that name is parked at a hook. Only for use inside a
+// YieldUntil condition (conditions are evaluated by the controller at quiescence, holding the lock).
+func (e *Exec) ParkedInCond(name string) bool {
+	for _, w := range e.parked {
+		if w.name == name || e.names[w.gid] == name {
+			return true
+		}
+	}
+	return false
 }
 
 // Live returns the number of harness threads that have not finished.
